@@ -29,4 +29,6 @@ def run(tier, seed):
         (D.delay('C09'),), (D.average('C09'),), (D.derivative('C09'),), (D.sampling('C09'),),
     ]
     run_contracts(pack, items)
+    from contracts import C01_assembly
+    run_contracts(pack, [(C01_assembly.fg_to_dae('C09'),)])
     return pack.finish()
